@@ -56,7 +56,7 @@ func checkStats(c statCase) (inf statInfo, v *verdict) {
 	var stop func() bool
 	var w *sim.World
 	var tb *tcpsim.Backend
-	var tcpProc proc.Proc
+	var tcpProc, redisProc proc.Proc
 	if c.Kind == "redis" {
 		var err error
 		w, err = sim.NewWorld(c.Masters, 0)
@@ -72,6 +72,7 @@ func checkStats(c statCase) (inf statInfo, v *verdict) {
 		px.WaitTableLoaded(1, 10*time.Second)
 		svc, addr = px.Name, px.Addr
 		stop = func() bool { return px.Stop(20 * time.Second) }
+		redisProc = px.P
 	} else {
 		var err error
 		tb, err = tcpsim.NewBackend(func(bc net.Conn, n int) {
@@ -135,7 +136,7 @@ func checkStats(c statCase) (inf statInfo, v *verdict) {
 		if a, b := counter(svc, "downstream.cx_total"), counter(svc, "downstream.cx_destroy_total"); a != b {
 			return fmt.Sprintf("downstream.cx_total = %d but cx_destroy_total = %d", a, b)
 		}
-		if c.Kind == "tcp" {
+		{ // both kinds (a Redis service that records no upstream connection statistics satisfies the equations with zeros)
 			if x := gauge(svc, "upstream.cx_active"); x != 0 {
 				return fmt.Sprintf("upstream.cx_active = %d at quiescence", x)
 			}
@@ -389,6 +390,17 @@ func checkStats(c statCase) (inf statInfo, v *verdict) {
 				w.Nodes[o.N%len(w.Nodes)].KillAfter(1+o.N%5, -1, false)
 				inf.backendFailure = true
 			}
+		case "replace":
+			// the endpoint set of the Redis service is replaced by an equal list while backend connections are open
+			if w != nil && redisProc != nil {
+				var hs []*host.Host
+				for _, a := range w.AllAddrs() {
+					hs = append(hs, host.New(a))
+				}
+				redisProc.OnSvcAllHostReplace(hs)
+				inf.backendFailure = true
+				time.Sleep(2 * time.Millisecond)
+			}
 		case "migrate":
 			if w != nil && len(w.Masters()) >= 2 {
 				ms := w.Masters()
@@ -536,6 +548,9 @@ func genStats(t *rapid.T) statCase {
 			o.Op, o.N = "drop", rapid.IntRange(0, 5).Draw(t, "dn")
 		case x == 13:
 			o.Op, o.N = "kill", rapid.IntRange(0, 9).Draw(t, "kn")
+			if rapid.IntRange(0, 2).Draw(t, "replace") == 0 {
+				o.Op = "replace"
+			}
 		default:
 			o.Op, o.N = "migrate", rapid.IntRange(0, 11).Draw(t, "mn")
 		}
